@@ -177,20 +177,27 @@ def viewOK (k : ViewKind) (b : ExtBlock) (bytes : Bytes) (queries : List UInt8) 
   o.size == .ok bytes.length &&
   o.to == [.err .other, .ok (bytes, bytes.length), .ok (bytes ++ [fill], bytes.length)]
 
-def viewWF (i : ViewIn) : Bool :=
+/-- the description the predicate works with: the one the generator sent, or — for arbitrary
+    bytes — the one the specification's decoder finds (re-checked with `ExtBlock.encode`) -/
+def ViewIn.desc (i : ViewIn) : Option ExtBlock :=
   match i.block with
+  | some b => some b
+  | none => ExtBlock.describe i.bytes
+
+def viewWF (i : ViewIn) : Bool :=
+  match i.desc with
   | some b => formMatches i.kind b && b.WF && !b.appbits
   | none => false
 
 /-- the appbits finding seen through the two-byte view: it refuses the block -/
 def viewAppbitsRegion (i : ViewIn) : Bool :=
-  match i.block with
+  match i.desc with
   | some b => formMatches i.kind b && b.WF && b.appbits
   | none => false
 
 /-- `c03.view`: demanded only of a well-formed block seen through the view of its own form -/
 def view (i : ViewIn) (o : ViewObs) : Bool :=
-  match i.block with
+  match i.desc with
   | some b => !(formMatches i.kind b && b.WF) || viewOK i.kind b i.bytes i.queries i.fill o
   | none => true
 
